@@ -3,6 +3,12 @@
 package props
 
 import (
+	"fmt"
+	"runtime/debug"
+	"sort"
+	"strings"
+	"sync"
+
 	"rqverif/checker/internal/core"
 )
 
@@ -10,8 +16,112 @@ var registry = map[string]*core.Check{}
 
 func register(ch *core.Check) { registry[ch.ID] = ch }
 
+// imports: a property whose statement depends on a mechanism that another
+// property's check already decides also carries those obligations, so that a
+// change which breaks it through that mechanism is reported under its own id
+// and not only under the sibling's. The obligations keep their clause keys.
+// An empty clause list imports the whole check.
+var imports = map[string][]core.Import{
+	"C01": {{From: "C14", Why: "replicas converge only if every non-deterministic call is rewritten before the statement enters the log"}},
+	"C03": {
+		{From: "C07", Why: "acknowledged writes live in the snapshot store once the log is truncated: a reap interrupted by a crash must not lose them"},
+		{From: "C04", Why: "a restart rebuilds the applied state from the snapshot store plus the log"},
+	},
+	"C04": {
+		{From: "C07", Why: "the rebuilt state is read from the consolidated snapshot the reaper produces"},
+		{From: "C09", Why: "the rebuild resolves its files through the catalogue and honours full-needed"},
+	},
+	"C11": {{From: "C34", Clauses: []string{"C34.a", "C34.b", "C34.c"}, Why: "streams and the reaper exclude each other through rsync.MultiRSW"}},
+	"C20": {{From: "C02", Clauses: []string{"C02.b", "C02.c"}, Why: "forwarding happens only if a non-leader store answers ErrNotLeader instead of acting locally"}},
+	"C21": {{From: "C34", Clauses: []string{"C34.e"}, Why: "a backup is point-in-time consistent only while it holds the snapshot gate"}},
+	"C22": {{From: "C07", Why: "after a load or boot the snapshot store must rebuild the loaded database: the reaper consolidates exactly the newest full snapshot and what follows it"}},
+	"C23": {{From: "C24", Why: "queued writes travel through the batching queue"}},
+	"C27": {{From: "C25", Clauses: []string{"C25.a/INIT:(*CDCStreamer).CommitHook:pending-group-own-events", "C25.a/INIT:(*CDCStreamer).Reset:pending-group-own-events"}, Why: "the events of a group are the rows changed by its own transaction only if each pending group owns its event list"}},
+	"C31": {{From: "C34", Clauses: []string{"C34.e"}, Why: "shutdown waits on the snapshot gate: it returns only if every holder releases it"}},
+	"C35": {{From: "C18", Clauses: []string{"C18.b", "C18.c"}, Why: "no byte sequence may change state without passing the permission checks of the inter-node handler"}},
+	"C38": {{From: "C34", Clauses: []string{"C34.a", "C34.b"}, Why: "a linearizable read waits on rsync.ReadyTarget"}},
+}
+
+var importsOnce sync.Once
+
 // Registry returns the registered checks by property id.
-func Registry() map[string]*core.Check { return registry }
+func Registry() map[string]*core.Check {
+	importsOnce.Do(func() {
+		for id, imps := range imports {
+			ch := registry[id]
+			if ch == nil {
+				continue
+			}
+			ch.Imports = imps
+			var parts []string
+			for _, im := range imps {
+				what := "all clauses of " + im.From
+				if len(im.Clauses) > 0 {
+					what = strings.Join(im.Clauses, ", ")
+				}
+				parts = append(parts, fmt.Sprintf("%s (%s; rules as described under %s)", what, im.Why, im.From))
+			}
+			sort.Strings(parts)
+			ch.Explanation += " Also decided here, as necessary conditions this property shares with sibling properties: " + strings.Join(parts, "; ") + "."
+		}
+	})
+	return registry
+}
+
+// RunImports runs the imported checks and adds their selected obligations to c.
+func RunImports(c *core.Ctx) {
+	for _, im := range c.Check.Imports {
+		src := registry[im.From]
+		if src == nil {
+			c.Unk(c.Check.ID, "IMPORT", im.From, "", "imported check not registered")
+			continue
+		}
+		sub := core.NewCtx(c.P, src, c.Tier)
+		func() {
+			defer func() {
+				if r := recover(); r != nil {
+					sub.Unk(im.From, "PANIC", "checker", "", fmt.Sprintf("checker panicked: %v\n%s", r, debug.Stack()))
+				}
+			}()
+			src.Run(sub)
+		}()
+		want := func(clause, key string) bool {
+			if len(im.Clauses) == 0 {
+				return true
+			}
+			for _, cl := range im.Clauses {
+				if clause == cl || (strings.Contains(cl, "/") && strings.HasPrefix(key, cl)) {
+					return true
+				}
+			}
+			// anchors, panics and floors of the imported check always count
+			return !strings.Contains(clause, ".")
+		}
+		n := 0
+		for _, o := range sub.Obls {
+			if want(o.Clause, o.Key) {
+				o.Prop = c.Check.ID
+				c.Obls = append(c.Obls, o)
+				n++
+			}
+		}
+		if len(im.Clauses) == 0 {
+			for name, floor := range sub.Floor {
+				c.Floor["["+im.From+"] "+name] = floor
+				c.Inst["["+im.From+"] "+name] = sub.Inst[name]
+			}
+		}
+		for f := range sub.Funcs {
+			c.Funcs[f] = true
+		}
+		c.Sites += sub.Sites
+		if c.Imported == nil {
+			c.Imported = map[string]bool{}
+		}
+		c.Imported[im.From] = true
+		c.Notes = append(c.Notes, fmt.Sprintf("imported %d obligations from %s: %s", n, im.From, im.Why))
+	}
+}
 
 // Thorough runs the additional thorough-tier work for a property.
 func Thorough(c *core.Ctx, repo string) {
